@@ -135,7 +135,7 @@ static long stream(lzma_next_coder *next, const uint8_t *data, size_t n, uint8_t
 	return -3;
 }
 
-static const char *mode_name(int mode) { static const char *n[] = { "whole", "in1", "out1", "in1out1", "split2", "random" }; return n[mode]; }
+static const char *mode_name(int mode) { static const char *n[] = { "whole", "in_bytewise", "out_bytewise", "both_bytewise", "split", "random" }; return n[mode]; }
 
 static void streams(const struct arch *a, int enc, void *options, const uint8_t *data, size_t n, const uint8_t *expect, const char *what)
 {
@@ -234,6 +234,9 @@ int main(void)
 			}
 			oneshot(a->name, enc, off, data, n, expect, n1, what);
 		} else if (kind[0] == 'P') {
+			// The call sequence (offered input, output space) of the plan is followed; what must hold is the
+			// property (bytes, size, STREAM_END only when complete).  Per-call amounts that differ from the
+			// SimpleCoder model although the bytes are right are reported as DRIFT (not a mismatch).
 			const struct arch *a = find_arch(TOK());
 			const int enc = atoi(TOK());
 			const uint32_t off = (uint32_t)strtoul(TOK(), NULL, 16);
@@ -243,16 +246,23 @@ int main(void)
 			lzma_next_coder next = LZMA_NEXT_CODER_INIT;
 			lzma_ret r = lone_init(&next, a, enc, &opt, 1);
 			if (r != LZMA_OK) { mismatch_num("plan_init_ret", "plan", r, LZMA_OK); lzma_next_end(&next, NULL); continue; }
-			size_t consumed = 0;
-			int bad = 0;
-			for (int c = 0; c < k; ++c) {
-				const size_t nin = strtoul(TOK(), NULL, 10), space = strtoul(TOK(), NULL, 10);
-				const int finish = atoi(TOK());
-				const size_t used = strtoul(TOK(), NULL, 10);
-				const int wret = atoi(TOK());
-				const size_t nout = unhex(TOK(), expect);
-				if (bad) continue;
-				if (consumed + nin > n) { printf("BADLINE %lu plan offers more than the data\n", lineno); return 2; }
+			size_t consumed = 0, produced = 0, nwhole = 0;
+			int bad = 0, drift = -1, ended = 0;
+			for (int c = 0; c < k + 64 && !ended && !bad; ++c) {
+				size_t nin, space, used = 0, nout = 0;
+				int wret = 0;
+				if (c < k) {
+					nin = strtoul(TOK(), NULL, 10); space = strtoul(TOK(), NULL, 10);
+					(void)atoi(TOK());
+					used = strtoul(TOK(), NULL, 10);
+					wret = atoi(TOK());
+					nout = unhex(TOK(), expect + nwhole);
+					nwhole += nout;
+				} else {
+					nin = n; space = n + 16;      // the plan is over (only after a drift): let the coder finish
+				}
+				if (nin > n - consumed) nin = n - consumed;
+				const int finish = consumed + nin == n;
 				uint8_t *in = dup_exact(data + consumed, nin);
 				uint8_t *o = malloc(space ? space : 1);
 				size_t in_pos = 0, out_pos = 0;
@@ -260,14 +270,26 @@ int main(void)
 				++calls;
 				char label[32];
 				snprintf(label, sizeof(label), "call%d", c);
-				if ((int)r != wret) { mismatch_num("plan_ret", label, r, wret); bad = 1; }
-				else if (in_pos != used) { mismatch_num("plan_in_used", label, (long)in_pos, (long)used); bad = 1; }
-				else if (out_pos != nout || memcmp(o, expect, nout) != 0) { mismatch(enc ? "plan_out_enc" : "plan_out_dec", label, o, out_pos, expect, nout); bad = 1; }
-				consumed += in_pos;
+				if (r != LZMA_OK && r != LZMA_STREAM_END) { mismatch_num("plan_ret", label, r, wret); bad = 1; }
+				else if (in_pos > nin || out_pos > space || produced + out_pos > n) { mismatch_num("plan_bounds", label, (long)out_pos, (long)space); bad = 1; }
+				else {
+					if (c < k && drift < 0 && ((int)r != wret || in_pos != used || out_pos != nout)) drift = c;
+					memcpy(obuf + produced, o, out_pos);
+					consumed += in_pos; produced += out_pos;
+					if (r == LZMA_STREAM_END) ended = 1;
+				}
 				free(in); free(o);
 			}
+			// the rest of the plan line (when the coder ended early) still carries expected bytes
+			for (char *t; (t = TOK()) != NULL; ) { (void)t; }
 			++runs;
 			lzma_next_end(&next, NULL);
+			if (bad) continue;
+			const char *what = enc ? "plan_encode" : "plan_decode";
+			if (!ended) mismatch_num(what, "never_finished", (long)produced, (long)n);
+			else if (produced != n || consumed != n) mismatch_num("size_changed", "plan", (long)produced, (long)n);
+			else if (drift < 0 && (nwhole != n || memcmp(obuf, expect, n) != 0)) mismatch(what, "plan", obuf, produced, expect, nwhole);
+			else if (drift >= 0) printf("DRIFT line=%lu call=%d\n", lineno, drift);
 		} else if (kind[0] == 'I') {
 			const struct arch *a = find_arch(TOK());
 			const int enc = atoi(TOK());
